@@ -127,7 +127,14 @@ pub fn valid_fasta(rng: &mut Rng, nrec: usize, crlf_mode: u8, final_term: bool, 
         }
         f.extend_from_slice(term(rng, crlf_mode));
         for l in 0..nlines {
-            let len = if blank_lines && rng.chance(1, 10) { 0 } else { *rng.pick(&[1usize, 2, 3, 4, 7, 12, 30]) };
+            // (one line in eighty is long: what is written back line by line may treat long and short pieces differently)
+            let len = if blank_lines && rng.chance(1, 10) {
+                0
+            } else if rng.chance(1, 80) {
+                *rng.pick(&[255usize, 256, 512, 513, 700])
+            } else {
+                *rng.pick(&[1usize, 2, 3, 4, 7, 12, 30])
+            };
             let mut line = rand_bytes(rng, len, SEQ_CHARS);
             if line.first() == Some(&b'>') {
                 line[0] = b'A';
@@ -614,9 +621,12 @@ pub fn writer_cases(fmt: &str, rng: &mut Rng, maxlen: usize, nrand: usize, out: 
             let in_domain = rng.chance(4, 5);
             let h = rand_head(rng);
             let seq_alpha: &[u8] = if in_domain { b"ACGTN @+;x" } else { b"ACG>\r\n T" };
-            let slen = *rng.pick(&[0usize, 1, 2, 3, 5, 9, 20, 61]);
+            // one case in twenty: a long sequence (around the sizes at which a writer might switch between buffering and
+            // writing through), cut into short AND long chunks, wrapped at small and large widths
+            let big = rng.chance(1, 20);
+            let slen = if big { *rng.pick(&[255usize, 256, 257, 511, 512, 513, 600, 1024, 1025, 1500, 4100]) } else { *rng.pick(&[0usize, 1, 2, 3, 5, 9, 20, 61]) };
             let s = rand_bytes(rng, slen, seq_alpha);
-            let w = rng.range(1, 12);
+            let w = if big && rng.chance(1, 2) { *rng.pick(&[60usize, 255, 256, 511, 512, 513]) } else { rng.range(1, 12) };
             let (id, desc) = match h.iter().position(|b| *b == b' ') {
                 Some(p) if rng.chance(2, 3) => (h[..p].to_vec(), Some(h[p + 1..].to_vec())),
                 _ => (h.clone(), None),
@@ -636,7 +646,11 @@ pub fn writer_cases(fmt: &str, rng: &mut Rng, maxlen: usize, nrand: usize, out: 
                         if rng.chance(1, 6) {
                             parts.push(vec![]);
                         }
-                        let l = rng.range(1, (s.len() - i).min(9));
+                        let l = if big && rng.chance(1, 3) {
+                            (*rng.pick(&[255usize, 256, 511, 512, 513, 1024])).min(s.len() - i)
+                        } else {
+                            rng.range(1, (s.len() - i).min(9))
+                        };
                         parts.push(s[i..i + l].to_vec());
                         i += l;
                     }
@@ -1273,6 +1287,25 @@ pub fn policy_cases(rng: &mut Rng, n: usize, out: &mut Vec<String>) {
     let big = 1usize << 23;
     for c in [0, 1, 2, 3, 64, big / 2 - 1, big / 2, big / 2 + 1, big - 1, big, big + 1, 3 * big, (1usize << 40) + 5] {
         out.push(format!("Q std {}", c));
+    }
+    // readers with LARGE buffers (64 KiB .. 1 MiB) over one long record, under policies whose answers are not round numbers:
+    // the byte-level model is not run at these sizes; the model side is the chain of requests alone
+    for _ in 0..(n / 40).max(4) {
+        let cap = *rng.pick(&[65536usize, 100000, 131072, 150001, 200000, 1 << 20]);
+        let len = match rng.below(4) {
+            0 => cap + rng.below(5) - 2,
+            1 => 2 * cap + rng.below(5) - 2,
+            2 => 3 * cap + 5 + rng.below(4096),
+            _ => cap + rng.below(2 * cap),
+        };
+        let pol = match rng.below(5) {
+            0 => "std".to_string(),
+            1 => format!("du.{}", *rng.pick(&[70000usize, 100001, 262144])),
+            2 => format!("dul.{}.{}", *rng.pick(&[70000usize, 100001, 262144]), len + rng.below(3 * cap) - rng.below(cap / 2)),
+            3 => format!("add.{}", *rng.pick(&[50001usize, 100001, 131073])),
+            _ => format!("dul.{}.{}", cap, 2 * cap + rng.below(3)),
+        };
+        out.push(format!("Q {} {} {} {}", pol, cap, if rng.chance(1, 2) { "fa" } else { "fq" }, len));
     }
     for _ in 0..n {
         let t = *rng.pick(&[1usize, 2, 3, 8, 64, 1000, 1 << 16, big]);
